@@ -391,6 +391,8 @@ class CCodeGenerator:
         assert not self.continue_block_stack
         self.labeled_blocks = {}
         assert not self.labeled_blocks
+        self.defined_labels = set()
+        self.goto_locations = {}
 
         # Save current function for later on..
         self.current_function = function
@@ -450,6 +452,11 @@ class CCodeGenerator:
         # Generate code for body:
         assert isinstance(function.body, statements.Compound)
         self.gen_compound_statement(function.body)
+
+        # Check that all labels used by goto statements exist:
+        for label_name, location in self.goto_locations.items():
+            if label_name not in self.defined_labels:
+                self.error(f"Label '{label_name}' is not defined", location)
 
         if not self.builder.block.is_closed:
             # In case of void function, introduce exit instruction:
@@ -693,6 +700,7 @@ class CCodeGenerator:
     def gen_label(self, stmt: statements.Label) -> None:
         """Generate code for a label"""
         block = self.get_label_block(stmt.name)
+        self.defined_labels.add(stmt.name)
         self.builder.emit_jump(block)  # fall through
         self.builder.set_block(block)
         self.gen_stmt(stmt.statement)
@@ -737,6 +745,7 @@ class CCodeGenerator:
     def gen_goto(self, stmt: statements.Goto) -> None:
         """Generate code for a goto statement"""
         block = self.get_label_block(stmt.label)
+        self.goto_locations.setdefault(stmt.label, stmt.location)
         self.builder.emit_jump(block)
         new_block = self.builder.new_block()
         self.builder.set_block(new_block)
